@@ -14,7 +14,15 @@ for id in $IDS; do
   git -C $R apply /verif/seeded/$id/patch.diff || { echo -e "$id\t$prop\tpatch-does-not-apply" >> $OUT; continue; }
   out=$(VERIF_REPO=$R ./check $prop quick 2>&1); rc=$?
   keys=$(echo "$out" | grep '^  key=' | sed 's/^  key=//' | sort -u | tr '\n' '|')
+  ran="$prop quick"
+  if [ $rc -eq 0 ]; then
+    # a change may surface through another property's check (meta.json: "also_run": ["Cxx"])
+    for other in $(python3 -c "import json,sys; print(' '.join(json.load(open('/verif/seeded/$id/meta.json')).get('also_run',[])))" 2>/dev/null); do
+      out=$(VERIF_REPO=$R ./check $other quick 2>&1); rc2=$?
+      if [ $rc2 -ne 0 ]; then rc=$rc2; ran="$prop quick: exit 0; $other quick"; keys=$(echo "$out" | grep '^  key=' | sed 's/^  key=//' | sort -u | tr '\n' '|'); break; fi
+    done
+  fi
   git -C $R checkout -- .
-  echo -e "$id\t$prop quick\texit=$rc\t$keys" >> $OUT
+  echo -e "$id\t$ran\texit=$rc\t$keys" >> $OUT
 done
 cat $OUT
